@@ -96,6 +96,19 @@ theorem add_from_int_spec (F : List Char → Option Rat) (s : State) (hI : Inv s
   · rw [e]; exact sget_sset_same _ _ _
   · rw [e]; simp only; rw [sget_sset_other _ _ _ _ hne]; exact hv
 
+/-- Non-vacuity of `add_from_int_spec`, for EVERY fresh container: the stored quality flag can be handed back
+    as an integer metric `name ≠ is_good`; the call succeeds and `is_good` is still the flag of every cycle. -/
+theorem add_from_int_on_fresh (F : List Char → Option Rat) (g : Cycles.GoodCfg) (pstep thr : Rat) (cache : Bool)
+    (ph : List Rat) (name : Name) (hne : isGoodName ≠ name) :
+    let s := (init g pstep thr cache ph).1
+    (step F s (.addFromInt name isGoodName)).2 = .ok .done ∧
+    sget (step F s (.addFromInt name isGoodName)).1.metrics isGoodName = sget s.metrics isGoodName := by
+  intro s
+  have hg := init_is_good g pstep thr cache ph
+  have h := add_from_int_spec F s (Inv_init g pstep thr cache ph) name isGoodName _ hg
+  refine ⟨by rw [h.1], ?_⟩
+  rw [h.2.2 hne]; exact hg.symm
+
 /-- … and an unknown source name is a `KeyError` that changes nothing. -/
 theorem add_from_int_missing (F : List Char → Option Rat) (s : State) (name src : Name)
     (hv : sget s.metrics src = none) : step F s (.addFromInt name src) = (s, .error .key) := by
